@@ -47,10 +47,10 @@ func colGraded(r, c, seed int) M {
 
 // wideShapes are (m, p, n) with n > m+p and m >= 2: Dggsvp3 then has n-l > k >= 2,
 // the branch that RQ-factors [T11 T12] and updates Q with its reflectors.
-func wideShapes(thorough bool) [][3]int {
+func wideShapes(level int) [][3]int {
 	s := [][3]int{{2, 0, 5}, {2, 1, 5}, {3, 1, 6}, {3, 2, 8}, {2, 2, 7}, {3, 0, 5}, {4, 1, 8}, {3, 3, 9}, {2, 1, 6}}
-	if thorough {
-		for m := 2; m <= 5; m++ {
+	if level >= 1 {
+		for m := 2; m <= 3+level; m++ {
 			for p := 0; p <= 3; p++ {
 				for n := m + p + 1; n <= m+p+3; n++ {
 					s = append(s, [3]int{m, p, n + 3})
@@ -62,7 +62,7 @@ func wideShapes(thorough bool) [][3]int {
 }
 
 func genDggsvd3(g *vlib.G) {
-	lim := vlib.Pick(g, 4, 5)
+	lim := p3(g, 4, 5, 6)
 	fams := gsvdFams
 	for m := 0; m <= lim; m++ {
 		for p := 0; p <= lim; p++ {
@@ -81,7 +81,7 @@ func genDggsvd3(g *vlib.G) {
 			}
 		}
 	}
-	for _, s := range wideShapes(g.Thorough()) {
+	for _, s := range wideShapes(lvl(g)) {
 		for _, f := range fams {
 			for _, ldx := range []int{0, 2} {
 				s, f, ldx := s, f, ldx
@@ -93,7 +93,7 @@ func genDggsvd3(g *vlib.G) {
 	}
 	// a few larger shapes with stock parameters
 	shapes := [][3]int{{8, 6, 7}, {6, 9, 8}, {12, 12, 12}, {5, 20, 9}, {20, 5, 9}}
-	if g.Thorough() {
+	if lvl(g) >= 1 {
 		shapes = append(shapes, [3]int{40, 35, 33}, [3]int{33, 40, 45}, [3]int{70, 10, 40})
 	}
 	for _, s := range shapes {
@@ -348,7 +348,7 @@ func gsvdAttribute(t *vlib.T, a, b M, findingsBefore int) {
 // Dggsvp3 alone
 
 func genDggsvp3(g *vlib.G) {
-	lim := vlib.Pick(g, 4, 5)
+	lim := p3(g, 4, 5, 6)
 	for m := 0; m <= lim; m++ {
 		for p := 0; p <= lim; p++ {
 			for n := 0; n <= lim; n++ {
@@ -366,7 +366,7 @@ func genDggsvp3(g *vlib.G) {
 			}
 		}
 	}
-	for _, sh := range wideShapes(g.Thorough()) {
+	for _, sh := range wideShapes(lvl(g)) {
 		for _, f := range gsvdFams {
 			sh, f := sh, f
 			kase(g, fmt.Sprintf("Dggsvp3 m=%d p=%d n=%d fam=%s lwork=query wide", sh[0], sh[1], sh[2], f.name), func(t *vlib.T) {
@@ -458,7 +458,7 @@ func runDggsvp3(t *vlib.T, m, p, n int, f gsvdFam, lw string) {
 // Dgghrd
 
 func genDgghrd(g *vlib.G) {
-	lim := vlib.Pick(g, 6, 8)
+	lim := p3(g, 6, 7, 8)
 	comps := []lapack.OrthoComp{lapack.OrthoNone, lapack.OrthoExplicit, lapack.OrthoPostmul}
 	for n := 0; n <= lim; n++ {
 		for ilo := 0; ilo < max(1, n); ilo++ {
